@@ -3,7 +3,7 @@
 # SessionManager + server sessions (small MaxStreamNum), model evaluated on the same histories, property
 # oracle evaluated on every quiescent point; a concurrent Get/Put scenario checks the ring clauses.
 import json, os, re
-from vlib import core, gen, sched
+from vlib import core, gen, sched, gosrc
 
 PROP = "C15"
 META = {
@@ -31,8 +31,8 @@ def scan_switches():
     """Translator for the two switches of Model/Pool.v. Returns ((fx, fy), [descriptions], error).
     Only the exact known shapes are accepted; anything else is an error (a broken correspondence)."""
     try:
-        sm = open(os.path.join(core.REPO, "session_manager.go")).read()
-        st = open(os.path.join(core.REPO, "stream.go")).read()
+        sm = gosrc.read("session_manager.go")
+        st = gosrc.read("stream.go")
     except OSError as ex:
         return None, None, "cannot read the source: %s" % ex
     m = re.search(r"func \(p \*streamPool\) getOrOpenStream\(\) \(\*Stream, error\) \{(.*?)\n}\n", sm, re.S)
